@@ -269,6 +269,15 @@ def _reparse_raw_stmtlike(self: fst.FST, new_lines: list[str], ln: int, col: int
         if is_elif:  # nuking a whole elif will parse but can do bad things to end positions
             stmtlike._set_end_pos((a := stmtlike.a).end_lineno, a.end_col_offset)  # setting own position to what it currently is but will also propagate up the tree
 
+        elif (parent := stmtlike.parent) and not stmtlike.next():  # changing trailing whitespace or semicolon of last child changes where the parents end
+            _, _, end_ln, end_col = stmtlike.loc
+            l = root._lines[end_ln]
+
+            if (rest := l[end_col:]).lstrip().startswith(';'):  # block parents end after trailing semicolon of last child
+                end_col += rest.index(';') + 1
+
+            parent._set_end_pos(end_ln + 1, l.c2b(end_col))
+
         return True
 
     # modifications only to block header line(s) of block statement
